@@ -43,6 +43,23 @@ fn extra_sets() -> &'static [&'static [DhcpOption<'static>]] {
         ]
     })
 }
+const DHCP_LENS: [usize; 6] = [0, 1, 2, 253, 254, 255];
+struct DhcpLenTables {
+    single: Vec<&'static [DhcpOption<'static>]>,
+    after_host: Vec<&'static [DhcpOption<'static>]>,
+    pair: Vec<Vec<&'static [DhcpOption<'static>]>>,
+}
+fn dhcp_len_tables() -> &'static DhcpLenTables {
+    static T: std::sync::OnceLock<DhcpLenTables> = std::sync::OnceLock::new();
+    T.get_or_init(|| DhcpLenTables {
+        single: DHCP_LENS.iter().map(|l| leak(vec![DhcpOption { kind: 43, data: pat(*l) }])).collect(),
+        after_host: DHCP_LENS.iter().map(|l| leak(vec![DhcpOption { kind: 12, data: b"host" }, DhcpOption { kind: 43, data: pat(*l) }])).collect(),
+        pair: DHCP_LENS
+            .iter()
+            .map(|a| DHCP_LENS.iter().map(|b| leak(vec![DhcpOption { kind: 60, data: pat(*a) }, DhcpOption { kind: 43, data: pat_at(1, *b) }])).collect())
+            .collect(),
+    })
+}
 fn base(mt: DhcpMessageType) -> DhcpRepr<'static> {
     DhcpRepr {
         message_type: mt,
@@ -191,6 +208,40 @@ impl Rt for Dhcp {
             r.rebind_duration = t2;
             v.push(r);
         }
+        // (d) length boundaries of the variable-length options (both tiers): the one-octet
+        // length field admits 0..=255 data octets
+        let t = dhcp_len_tables();
+        for (li, l) in DHCP_LENS.iter().enumerate() {
+            // parameter request list alone / next to every other option (incl. 3 DNS servers)
+            let mut r = base(mt);
+            r.parameter_request_list = Some(pat(*l));
+            v.push(r);
+            let mut r = base(mt);
+            option_set(&mut r, 1);
+            r.parameter_request_list = Some(pat(*l));
+            v.push(r);
+            // one additional option of that length alone / behind another one and next to
+            // every other option
+            let mut r = base(mt);
+            r.additional_options = t.single[li];
+            v.push(r);
+            let mut r = base(mt);
+            option_set(&mut r, 1);
+            r.additional_options = t.after_host[li];
+            v.push(r);
+            // two additional options, every pair of lengths
+            for lj in 0..DHCP_LENS.len() {
+                let mut r = base(mt);
+                r.additional_options = t.pair[li][lj];
+                v.push(r);
+            }
+        }
+        // everything at its maximum at once
+        let mut r = base(mt);
+        option_set(&mut r, 1);
+        r.parameter_request_list = Some(pat(255));
+        r.additional_options = t.pair[5][5];
+        v.push(r);
         v.into_iter().map(|r| ((r, vec![]), ())).collect()
     }
     fn blen(r: &DhcpV, _: &()) -> usize {
@@ -251,7 +302,7 @@ impl Rt for Dhcp {
         }
     }
     fn domain_doc() -> &'static str {
-        "per message type (8 known + Unknown(9), Unknown(0)): (a) header sweep: xid {0,2^32-1} x secs {0,65535} x chaddr(2) x ciaddr(2) x yiaddr(2) x siaddr(2) x giaddr(2) x broadcast x 4 option sets; (b) option sweep: 2 headers x requested_ip x client_identifier x server_identifier x router x subnet_mask (each None/Some) x max_size {None,0,1500,65535} x lease {None,0,2^32-1} x parameter_request_list {None, [], [1,3,6], 255 bytes} x dns_servers {None, 0..3 addresses} x additional_options {none, [hostname], [empty vendor class, 255-byte vendor info]}; (c) renew/rebind durations (None,Some) combinations"
+        "per message type (8 known + Unknown(9), Unknown(0)): (a) header sweep: xid {0,2^32-1} x secs {0,65535} x chaddr(2) x ciaddr(2) x yiaddr(2) x siaddr(2) x giaddr(2) x broadcast x 4 option sets; (b) option sweep: 2 headers x requested_ip x client_identifier x server_identifier x router x subnet_mask (each None/Some) x max_size {None,0,1500,65535} x lease {None,0,2^32-1} x parameter_request_list {None, [], [1,3,6], 255 bytes} x dns_servers {None, 0..3 addresses} x additional_options {none, [hostname], [empty vendor class, 255-byte vendor info]}; (c) renew/rebind durations (None,Some) combinations; (d) in both tiers, the length boundaries {0,1,2,253,254,255} of the one-octet option length: parameter_request_list of each length alone and next to every other option (incl. the maximum of 3 DNS servers), one additional option of each length alone and behind another one next to every other option, two additional options with every pair of these lengths, and everything at its maximum at once"
     }
 }
 
@@ -273,13 +324,26 @@ fn dns_names() -> Vec<&'static [u8]> {
         }
         max_name.push(0);
         assert_eq!(max_name.len(), 255);
+        // just below the limits: a 62-byte label, a 254-byte name
+        let mut label62 = vec![62u8];
+        label62.extend(std::iter::repeat(b'b').take(62));
+        label62.push(0);
+        let mut name254 = vec![];
+        for l in [63usize, 63, 63, 60] {
+            name254.push(l as u8);
+            name254.extend(std::iter::repeat(b'y').take(l));
+        }
+        name254.push(0);
+        assert_eq!(name254.len(), 254);
         vec![
             &b"\x03www\x07example\x03com\x00"[..],
             &b"\x00"[..],
-            &b"\x01a\x00"[..],
-            &b"\x03www\xc0\x0c"[..],
             leak(max_label),
             leak(max_name),
+            &b"\x01a\x00"[..],
+            &b"\x03www\xc0\x0c"[..],
+            leak(label62),
+            leak(name254),
         ]
     })
     .clone()
@@ -311,7 +375,7 @@ impl Rt for Dns {
         for id in pick(tier, &U16S, 2) {
             for op in pick(tier, &ops, 3) {
                 for f in &flags {
-                    for n in pick(tier, &dns_names(), 3) {
+                    for n in pick(tier, &dns_names(), 4) {
                         for t in pick(tier, &types, 3) {
                             v.push((DnsRepr { transaction_id: id, opcode: op, flags: *f, question: DnsQuestion { name: n, type_: t } }, ()));
                         }
@@ -356,6 +420,6 @@ impl Rt for Dns {
         }
     }
     fn domain_doc() -> &'static str {
-        "transaction_id {0,1,0x8000,0xffff} x opcode {Query, Status, Unknown(2), Unknown(7), Unknown(8), Unknown(15)} (4-bit field) x every combination of the 7 defined flag bits (128) x name {www.example.com, root, 'a', 'www'+compression pointer, one 63-byte label, a 255-byte name} x type {A, AAAA, CNAME, NS, SOA, Unknown(0), Unknown(255)}; read back through DnsPacket::{transaction_id, opcode, flags} and DnsQuestion::parse"
+        "transaction_id {0,1,0x8000,0xffff} x opcode {Query, Status, Unknown(2), Unknown(7), Unknown(8), Unknown(15)} (4-bit field) x every combination of the 7 defined flag bits (128) x name {www.example.com, root, 'a', 'www'+compression pointer, one 63-byte label (the maximum) and one 62-byte label, a 255-byte name (the maximum) and a 254-byte name; the two maxima also in the quick tier} x type {A, AAAA, CNAME, NS, SOA, Unknown(0), Unknown(255)}; read back through DnsPacket::{transaction_id, opcode, flags} and DnsQuestion::parse"
     }
 }
